@@ -16,6 +16,7 @@
    fragment, as it is.
 
    All proofs live in theories/SeqMemFacts.v. *)
+From Mcap Require ConstsTie LayoutTie. (* regenerated ties to /repo's source that this property's model relies on *)
 From Coq Require Import List NArith ZArith Bool.
 From Coq.Strings Require Import Byte.
 From Mcap Require Import Bytes GoSem Crc32 Records Writer Lexer LexSpec LexerFactsA LexerFactsB WriterFactsB
